@@ -188,8 +188,117 @@ func usableScenario(p usableParams) func() {
 	}
 }
 
+// usableBlockedSendScenario: the receiver is parked in the middle of delivering a reply (a server-stream
+// correctable A whose quorum function is blocked, reply channel full) while call B's write is blocked on a
+// full transport window, so that B's context watcher is alive. Then B's context ends (the watcher cancels
+// the stream), and only afterwards the quorum function continues and the receiver finishes its delivery.
+// Afterwards the node must still be usable.
+func usableBlockedSendScenario(kindB string, buf uint, cancelFirst bool) func() {
+	return func() {
+		w := world.New(world.Opts{N: 1, Window: 1, SendBuffer: buf})
+		if w.Cfg == nil {
+			return
+		}
+		tokA := 0
+		w.Handle = func(h *world.HCtx) world.Reply {
+			if h.Tok == tokA {
+				// the handler keeps the connection (no release): the server stops reading, so later requests
+				// pile up in the transport window; on the script's signal it streams three replies back to back
+				w.Wait("s")
+				for i := 0; i < 3; i++ {
+					if h.Send(i, 0) != nil {
+						break
+					}
+				}
+				w.Wait("a")
+			}
+			return world.Reply{}
+		}
+		mk := func(kind string) *world.Call {
+			c := w.NewCall(kind)
+			if kind == "GRPCCall" || kind == "Unicast" {
+				c.Node = 1
+			}
+			c.Verdict = func(inv *world.QFInv) { inv.Level = len(inv.Keys); inv.Quorum = true }
+			return c
+		}
+		a := mk("CorrectableStream")
+		tokA = a.Tok
+		first := true
+		a.Verdict = func(inv *world.QFInv) {
+			if first {
+				first = false
+				w.Wait("qf")
+			}
+			inv.Level = len(a.QF) + 1
+		}
+		w.Start(a)
+		mc.Quiesce()
+		x := mk("Unicast") // fills the window
+		x.NoSendWaiting = true
+		w.Start(x)
+		mc.Quiesce()
+		b := mk(kindB)
+		w.Start(b)
+		mc.Quiesce() // B's write is blocked now
+		w.Open("s")
+		mc.Quiesce() // the quorum function is blocked on the first reply, the receiver on the full reply channel
+		if cancelFirst {
+			b.Cancel(context.Canceled)
+			mc.Quiesce()
+			w.Open("qf")
+		} else {
+			w.Open("qf")
+			mc.GoLow("cancel", func() { b.Cancel(context.Canceled) })
+		}
+		mc.Quiesce()
+		w.Open("a")
+		a.Cancel(context.Canceled)
+		mc.Quiesce()
+		for i := 0; i < 4 && mc.FireTimers(nil) > 0; i++ {
+			mc.Quiesce()
+		}
+		probe := w.NewCall("GRPCCall")
+		probe.Node = 1
+		w.Start(probe)
+		mc.Quiesce()
+		for i := 0; i < 4 && !probe.Returned; i++ {
+			if mc.FireTimers(nil) == 0 {
+				break
+			}
+			mc.Quiesce()
+		}
+		name := fmt.Sprintf("usable/parked-receiver/%s-cancelled-while-its-write-is-blocked/buf=%d/cancel-first=%v", kindB, buf, cancelFirst)
+		key := kindB + "+cancel parked-receiver"
+		switch {
+		case !probe.Returned:
+			fail("C09/probe-stuck", key+" lock-waiters="+world.LockWaiters(), "%s: node 1 is reachable and every handler has returned, but a new RPC to it gets no answer (entered=%d; blocked library threads: %v)", name, w.Entered(1, probe.Tok), world.LibThreads())
+			mc.Outcome("probe-stuck")
+		case probe.Err != nil:
+			fail("C09/probe-failed", key, "%s: node 1 is reachable and every back-off timer has fired, but a new RPC to it fails: %v", name, probe.Err)
+			mc.Outcome("probe-failed")
+		default:
+			mc.Outcome("probe-ok")
+		}
+	}
+}
+
 func usableInstances(tier string) []Instance {
 	var out []Instance
+	for _, kb := range []string{"GRPCCall", "QuorumCall", "Unicast"} {
+		for _, buf := range []uint{0, 1} {
+			for _, cf := range []bool{true, false} {
+				if buf == 1 && !thorough(tier) && kb != "GRPCCall" {
+					continue
+				}
+				b := 1
+				if thorough(tier) {
+					b = 2
+				}
+				out = append(out, Instance{Name: fmt.Sprintf("usable/parked-receiver/%s-cancelled-while-its-write-is-blocked/buf=%d/cancel-first=%v", kb, buf, cf), Bound: b, Root: usableBlockedSendScenario(kb, buf, cf)})
+			}
+		}
+	}
 	add := func(p usableParams, bound int) {
 		out = append(out, Instance{Name: p.name(), Bound: bound, Root: usableScenario(p)})
 	}
@@ -261,7 +370,7 @@ func usableInstances(tier string) []Instance {
 
 func init() {
 	register(&Check{ID: "C09",
-		Rule:        "workloads on node 1 (configuration of 1 or 2 nodes): every single call from {correctable stream with k in 1..3 server replies x quorum function done at the first reply / never x fast / slow (blocked) quorum function, cancelled stream, quorum call, async, correctable, RPC, multicast, unicast, each optionally with its context cancelled by a free-running thread} and every ordered pair of 5 representatives (concurrent and sequential) x fault {none, stream reset, crash+restart as free-running threads} x a free-running thread that fires the armed timers at any instant; then every back-off timer is fired to a horizon of 4 rounds and a probe RPC with a fresh context is issued; oracle: the probe is delivered and answered with its own stamped reply, and no library thread is left blocked on a lock; all schedules within the deviation bound; an outcome is (instance, probe result)",
+		Rule:        "workloads on node 1 (configuration of 1 or 2 nodes): every single call from {correctable stream with k in 1..3 server replies x quorum function done at the first reply / never x fast / slow (blocked) quorum function, cancelled stream, quorum call, async, correctable, RPC, multicast, unicast, each optionally with its context cancelled by a free-running thread} and every ordered pair of 5 representatives (concurrent and sequential) x fault {none, stream reset, crash+restart as free-running threads} x a free-running thread that fires the armed timers at any instant; plus a family in which the receiver is parked in the middle of a delivery (stream call with a blocked quorum function) while another call's write is blocked on a full transport window and that call's context ends; then every back-off timer is fired to a horizon of 4 rounds and a probe RPC with a fresh context is issued; oracle: the probe is delivered and answered with its own stamped reply, and no library thread is left blocked on a lock; all schedules within the deviation bound; an outcome is (instance, probe result)",
 		Gen:         usableInstances,
 		Assumptions: []string{"handlers of the workload return at once (the property conditions on handlers that return or release)", "eventual form: armed library timers are fired before the probe and while it waits"},
 	})
